@@ -336,11 +336,12 @@ fn ident(rng: &mut Rng, n: usize) -> String {
 fn gen_sig(rng: &mut Rng, level: usize, bs: usize, is: usize, layout: usize, kind: usize, d: i64) -> Option<SigCase> {
     let ts = if rng.chance(1, 4) { 2 } else { 4 };
     let mw = 40 + rng.below(61);
-    let tys = ["u8", "u32", "String", "Vec<u8>", "&str", "Option<u64>", "(u8, u8)"];
+    // types that render on one line whatever the width (no generics, no tuples)
+    let tys = ["u8", "u32", "String", "usize", "&str", "&mut Foo", "bool", "Self"];
     let n = rng.below(5);
     let params: Vec<String> = (0..n).map(|i| if i == 0 && kind == 1 && rng.chance(1, 2) { ["self", "&self", "&mut self"][rng.below(3)].to_string() } else { { let k = 1 + rng.below(5); format!("{}: {}", ident(rng, k), rng.pick(&tys)) } }).collect();
     let ret = if rng.chance(2, 3) { format!("-> {}", rng.pick(&tys)) } else { String::new() };
-    let preds = if rng.chance(1, 6) { 1 + rng.below(2) } else { 0 };
+    let preds = if (n > 0 || !ret.is_empty()) && rng.chance(1, 6) { 1 + rng.below(2) } else { 0 };
     let generics = if preds > 0 { "<T, U>" } else if (n > 0 || !ret.is_empty()) && rng.chance(1, 4) { "<T>" } else { "" };
     // kind: 0 free fn, 1 method, 2 trait method without body, 3 foreign fn
     let kind = if level == 0 { 0 } else { kind };
@@ -360,6 +361,10 @@ fn gen_sig(rng: &mut Rng, level: usize, bs: usize, is: usize, layout: usize, kin
         return None;
     }
     let name = if name == "_" { "z".to_string() } else { name };
+    // the generics must fit behind the name (rewrite_generics: one line), else `prefix` is not one line
+    if !generics.is_empty() && indent + quals.len() + 3 + name.len() + generics.len() + 4 > mw {
+        return None;
+    }
     let wh = if preds == 0 { String::new() } else { format!(" where {}", ["T: Copy", "U: Clone"][..preds].join(", ")) };
     let tail = if has_body { " { x(); }" } else { ";" };
     let line = format!("{}fn {}{}({}){}{}{}{}", quals, name, generics, params.join(", "), if ret.is_empty() { "" } else { " " }, ret, wh, tail);
@@ -397,8 +402,8 @@ fn gen_sig(rng: &mut Rng, level: usize, bs: usize, is: usize, layout: usize, kin
     })
 }
 
-/// the layout features of the signature of `fn <name>` in `out`: (params_in_block, ret_own_line,
-/// closing_paren_moved, one_line, brace_on_next_line)
+/// the layout features of the signature of `fn <name>` in `out`: (line of `fn` ends with `(`,
+/// ret_own_line, unused, one_line, brace_on_next_line)
 fn observe(out: &str, name: &str, has_body: bool) -> Option<[bool; 5]> {
     let lines: Vec<&str> = out.lines().collect();
     let key = format!("fn {}", name);
@@ -410,8 +415,7 @@ fn observe(out: &str, name: &str, has_body: bool) -> Option<[bool; 5]> {
     let sig: &[&str] = if brace_next { &region[..region.len() - 1] } else { region };
     let pib = region[0].trim_end().ends_with('(');
     let ret_own = sig.iter().skip(1).any(|l| l.trim_start().starts_with("->"));
-    let closing = !pib && sig.iter().skip(1).any(|l| l.trim_start().starts_with(')'));
-    Some([pib, ret_own, closing, sig.len() == 1, brace_next])
+    Some([pib, ret_own, false, sig.len() == 1, brace_next])
 }
 
 fn e2e_sigs(o: &mut Outcome, rng: &mut Rng, thorough: bool) {
@@ -482,12 +486,12 @@ fn e2e_sigs(o: &mut Outcome, rng: &mut Rng, thorough: bool) {
             o.count("e2e:sig:not-predicted(visual,mixed)");
             preds[i].clone()
         } else {
-            [p[0], p[1], b(obs[0]), b(obs[1]), b(obs[2]), p[5], b(obs[3]), if p[7] == "?" || !c.has_body { p[7] } else { b(obs[4]) }].join(":")
+            [p[0], p[1], b(obs[0]), b(obs[1]), p[4], p[5], b(obs[3]), if p[7] == "?" || !c.has_body { p[7] } else { b(obs[4]) }].join(":")
         };
         if obs[3] { o.count("e2e:sig:observed-one-line"); } else { o.count("e2e:sig:observed-multi-line"); }
         if obs[1] { o.count("e2e:sig:observed-ret-own-line"); }
         if obs[0] { o.count("e2e:sig:observed-params-in-block"); }
-        o.push("oracle", "bud.sig", reqs[i].clone(), expect, c.fam.clone(), true);
+        o.push("oracle", "bud.sig", reqs[i].clone(), expect, format!("{} | {:?} | {:?}", c.fam, c.job.src, r.out), true);
         if i % 97 == 0 {
             o.sample(json!({"kind": "e2e", "src": c.job.src, "cfg": format!("{:?}", c.job.cfg), "out": r.out, "model": preds[i]}));
         }
@@ -530,7 +534,7 @@ fn e2e_cond(o: &mut Outcome, rng: &mut Rng, thorough: bool) {
                         for l in 0..level {
                             src.push_str(&format!("{}mod m {{\n", " ".repeat(l * ts)));
                         }
-                        src.push_str(&format!("{}fn f() {{\n{}{} {} {{\n{}x();\n{}}}\n{}}}\n", " ".repeat(level * ts), " ".repeat(indent), if is_if { "if" } else { "while" }, id, " ".repeat(indent + ts), " ".repeat(indent), " ".repeat(level * ts)));
+                        src.push_str(&format!("{}fn f() {{\n{}{} {} {{\n{}x();\n{}}}\n{}}}\n", " ".repeat(level * ts), " ".repeat(indent), if is_if { "if " } else { "while " }, id, " ".repeat(indent + ts), " ".repeat(indent), " ".repeat(level * ts)));
                         for l in (0..level).rev() {
                             src.push_str(&format!("{}}}\n", " ".repeat(l * ts)));
                         }
@@ -588,16 +592,22 @@ fn e2e_cond(o: &mut Outcome, rng: &mut Rng, thorough: bool) {
             continue;
         }
         let lines: Vec<&str> = r.out.lines().collect();
+        let kwd = c.key.split(' ').next().unwrap();
+        if lines.iter().any(|l| l.trim_start().starts_with(&format!("{}  ", kwd))) {
+            // left as written: the rewrite failed
+            o.push("oracle", "bud.cond", req("bud.cond", &c.args), "err".into(), "e2e: left as written".into(), true);
+            continue;
+        }
         let Some(k) = lines.iter().position(|l| l.trim_start().starts_with(&c.key)) else {
             // the condition moved or the statement was left alone: the model must say so
             let kw_only = lines.iter().any(|l| l.trim() == c.key.split(' ').next().unwrap());
-            let expect = if kw_only { "1:1:".to_string() } else { "?".to_string() };
+            let expect = if kw_only { format!("1:1:{}", c.args[4] + c.args[1] + c.args[9]) } else { "?".to_string() };
             o.push("oracle", "bud.cond", req("bud.cond", &c.args), expect, "e2e: header not found".into(), true);
             continue;
         };
         let same_line = lines[k].trim_end().ends_with('{');
         // expect = the model's own used_width with the observed brace placement
-        let used = c.key.len() + 2;
+        let used = c.key.len() + 1;
         o.push("oracle", "bud.cond", req("bud.cond", &c.args), format!("0:{}:{}", (!same_line) as usize, used), "e2e".into(), true);
     }
     for (j, r) in narrow.iter().zip(res[n..].iter()) {
